@@ -286,26 +286,33 @@ def run_package(case, rng, d, counters, cov, viol):
     selector = rng.choice([None, names[0], 'a.*', 'a|ab', [names[-1]], list(names), 0, -1, k - 1, [], 'zzz',
                            [names[0], 'nope']])
     kind = rng.choice(['package', 'tuple', 'zip'])
-    cfg = {'family': 'package', 'kind': kind, 'names': names, 'selector': selector}
+    strat = rng.choice([None, None, 'strings+strings', 'full+strings', 'strings+nothing'])
+    skw = {}
+    if strat:
+        a, b = strat.split('+')
+        skw = {'infer_strategy': {'strings': d.load.INFER_STRINGS, 'full': d.load.INFER_FULL}[a],
+               'cast_strategy': {'strings': d.load.CAST_TO_STRINGS, 'nothing': d.load.CAST_DO_NOTHING}[b]}
+    cfg = {'family': 'package', 'kind': kind, 'names': names, 'selector': selector, 'strategies': strat}
     cov['options']['package/%s/%s' % (kind, type(selector).__name__)] = 1
     want = refmodel.sel(selector, names)
     srcs = [lab.source(n, fields, tables[n]) for n in names]
     if kind == 'tuple':
         desc = {'resources': [{'name': n, 'path': n + '.csv', 'schema': {'fields': copy.deepcopy(fields)}}
                               for n in names]}
-        step = d.load((desc, [iter(copy.deepcopy(tables[n])) for n in names]), resources=copy.deepcopy(selector))
+        step = d.load((desc, [iter(copy.deepcopy(tables[n])) for n in names]), resources=copy.deepcopy(selector), **skw)
     elif kind == 'package':
         with boot.quiet():
             d.Flow(*srcs, d.dump_to_path('pk')).process()
-        step = d.load('pk/datapackage.json', resources=copy.deepcopy(selector))
+        step = d.load('pk/datapackage.json', resources=copy.deepcopy(selector), **skw)
     else:
         with boot.quiet():
             d.Flow(*srcs, d.dump_to_zip('pk.zip')).process()
-        step = d.load('pk.zip', format='datapackage', resources=copy.deepcopy(selector))
-    got = lab.run([step], validate=True)
+        step = d.load('pk.zip', format='datapackage', resources=copy.deepcopy(selector), **skw)
+    got = lab.run([step], via='datastream') if strat else lab.run([step], validate=True)
 
     def add(kind_, msg):
-        viol.append({'kind': kind_, 'mech': 'package/' + kind, 'msg': '%r: %s' % (cfg, msg), 'config': cfg})
+        viol.append({'kind': kind_, 'mech': 'package/' + kind + ('/' + strat if strat else ''),
+                     'msg': '%r: %s' % (cfg, msg), 'config': cfg})
     if not got.ok:
         if want:
             add('unexpected_error', got.errstr())
@@ -315,8 +322,12 @@ def run_package(case, rng, d, counters, cov, viol):
     else:
         for n, rws in zip(got.names, got.results):
             counters['cells_compared'] += 2 * len(rws)
-            if lab.rows_diff(tables[n], rws):
-                add('rows', 'resource %s: %s' % (n, lab.rows_diff(tables[n], rws)))
+            want_rows = tables[n]
+            if strat and strat.endswith('+strings'):
+                # the string cast strategy yields only strings, whatever the source kind
+                want_rows = [{k: str(v) for k, v in r.items()} for r in tables[n]]
+            if lab.rows_diff(want_rows, rws):
+                add('rows', 'resource %s: %s' % (n, lab.rows_diff(want_rows, rws)))
     return dict(nontrivial=bool(want) and any(tables[n] for n in want), violations=viol, cov=cov,
                 counters=counters, sample={'config': cfg})
 
